@@ -9,7 +9,8 @@ EXPLANATION = ('Real grader calls (String, Formula, Numerical, Matrix, Sum, Inte
                'exactly the keys ok/grade_decimal/msg (plus overall_message and an input_list of one entry per input, in input order), that '
                '0 <= grade <= 1, msg is a str, ok is True iff grade = 1, False iff grade = 0 and "partial" otherwise; with debug off no message '
                'contains the debug log, the library version, the student response header or a sampled value (sampled values render as a '
-               'poison token, so a leak is structural); with debug on the log is present.')
+               'poison token, so a leak is structural); with debug on the log is present.'
+               " Box counts: grouped / nested / flat ListGraders with 1-6 boxes either raise a library error or return one entry per box. MatrixGrader entry credit with the answer's own credit symbolic (0 included).")
 ASSUMPTIONS = ['author-pinned ok values are outside the claim (the property exempts them)', 'credits/samples arbitrary reals in their declared ranges']
 BOUNDS = {'quick': 'lists of 2 (full credits) and 3 (interior) entries, 2 answer alternatives with symbolic partial credit, samples <= 2, all standardize_cfn_return input forms',
           'thorough': 'lists of 3 full-credit entries, grouped/nested lists, samples 3'}
